@@ -422,7 +422,7 @@ Record zstate := {
 
 Definition z_new (P : dparams) : zstate :=      (* ZSTD_createDCtx + parameters *)
   {| z_stage := ZInit; z_lh := []; z_inbuf := []; z_inPos := 0; z_inBuffSize := 0; z_outBuffSize := 0; z_outStart := 0; z_outEnd := 0;
-     z_pending := []; z_hostage := false; z_noProgress := 0; z_oversized := 0; z_expect := (0, 0); z_c := c_begin P |}.
+     z_pending := []; z_hostage := false; z_noProgress := 0; z_oversized := 0; z_expect := (0, 0); z_c := c_goto (c_begin P) DGetFHSize 0 |}.
 
 Definition z_upd (z : zstate) (st : sstage) (c : cstate) : zstate :=
   {| z_stage := st; z_lh := z_lh z; z_inbuf := z_inbuf z; z_inPos := z_inPos z; z_inBuffSize := z_inBuffSize z;
@@ -535,11 +535,14 @@ Definition iter_read (P : dparams) (l : lstate) : ires :=
   else iter_load P (l_setz l (z_set_stage z ZLoad)).
 
 (* stage zdss_loadHeader once the header is complete: shortcut, begin, buffer sizing; falls through to zdss_read *)
-Definition header_done (P : dparams) (inp0 : bytes) (l : lstate) (fp : fparams) : ires :=
+(* [old] = true is the code before /repo commit 81dbe9b (shortcut also tried when an earlier call had consumed part of
+   the header); kept only for the refutation witnesses in DStreamProofs.v *)
+Definition header_done (old : bool) (P : dparams) (inp0 : bytes) (l : lstate) (fp : fparams) : ires :=
   let z := l_z l in
   let ml := dp_magicless P in
   let shortcut :=
-    if andb (negb (fp_fcs fp =? UNKNOWN)) (andb (negb (fp_skippable fp)) (fp_fcs fp <=? l_ocap l)) then
+    if andb (negb (fp_fcs fp =? UNKNOWN)) (andb (negb (fp_skippable fp))
+            (andb (orb old (l_ip l =? lenN (z_lh z))) (fp_fcs fp <=? l_ocap l))) then
       match find_csize ml inp0 with
       | Some cs => if cs <=? lenN inp0 then Some cs else None
       | None => None
@@ -586,7 +589,7 @@ Definition header_done (P : dparams) (inp0 : bytes) (l : lstate) (fp : fparams) 
         end
   end.
 
-Definition iter_loadHeader (P : dparams) (inp0 : bytes) (l : lstate) : ires :=
+Definition iter_loadHeader (old : bool) (P : dparams) (inp0 : bytes) (l : lstate) : ires :=
   let z := l_z l in
   let ml := dp_magicless P in
   match get_fheader ml (z_lh z) with
@@ -601,23 +604,23 @@ Definition iter_loadHeader (P : dparams) (inp0 : bytes) (l : lstate) : ires :=
         | _ => IEarly (z_set_lh z lh') (N.max (hdr_min ml) hSize - lenN lh' + BHS)
         end
       else ICont (l_adv l (z_set_lh z (z_lh z ++ tk toLoad (l_in l))) toLoad)
-  | HDone fp => header_done P inp0 l fp
+  | HDone fp => header_done old P inp0 l fp
   end.
 
-Definition iter (P : dparams) (inp0 : bytes) (ex : N * N) (l : lstate) : ires :=
+Definition iter (old : bool) (P : dparams) (inp0 : bytes) (ex : N * N) (l : lstate) : ires :=
   match z_stage (l_z l) with
-  | ZInit => iter_loadHeader P inp0 (l_setz l (z_reset (l_z l) ex))
-  | ZLoadHeader => iter_loadHeader P inp0 l
+  | ZInit => iter_loadHeader old P inp0 (l_setz l (z_reset (l_z l) ex))
+  | ZLoadHeader => iter_loadHeader old P inp0 l
   | ZRead => iter_read P l
   | ZLoad => iter_load P l
   | ZFlush => iter_flush l
   end.
 
-Fixpoint dloop (fuel : nat) (P : dparams) (inp0 : bytes) (ex : N * N) (l : lstate) : ires :=
+Fixpoint dloop (fuel : nat) (old : bool) (P : dparams) (inp0 : bytes) (ex : N * N) (l : lstate) : ires :=
   match fuel with
   | O => IErr (Eimpossible 3)
-  | S f => match iter P inp0 ex l with
-           | ICont l' => dloop f P inp0 ex l'
+  | S f => match iter old P inp0 ex l with
+           | ICont l' => dloop f old P inp0 ex l'
            | r => r
            end
   end.
@@ -635,14 +638,14 @@ Definition next_is_block (c : cstate) : bool := match c_stage c with DBlock => t
 Definition dfuel (inp : bytes) : nat := S (S (S (S (2 * length inp)))).
 
 (* ZSTD_decompressStream(zds, {dst, osize, opos}, {inp, |inp|, 0}) *)
-Definition dstep (P : dparams) (z : zstate) (inp : bytes) (osize opos : N) : dout :=
+Definition dstep_gen (old : bool) (P : dparams) (z : zstate) (inp : bytes) (osize opos : N) : dout :=
   let fail e := {| o_z := z; o_consumed := 0; o_out := []; o_ret := MErr e |} in
   if osize <? opos then fail EdstSize_tooSmall
   else if andb (dp_stableOut P) (andb (match z_stage z with ZInit => false | _ => true end)
                                       (negb (andb (fst (z_expect z) =? osize) (snd (z_expect z) =? opos))))
   then fail EdstBuffer_wrong
   else
-  match dloop (dfuel inp) P inp (osize, opos) (l_mk z inp 0 [] (osize - opos)) with
+  match dloop (dfuel inp) old P inp (osize, opos) (l_mk z inp 0 [] (osize - opos)) with
   | IErr e => fail e
   | ICont _ => fail (Eimpossible 4)
   | IEarly z' hint => {| o_z := z'; o_consumed := lenN inp; o_out := []; o_ret := MOk hint |}
@@ -678,6 +681,9 @@ Definition dstep (P : dparams) (z : zstate) (inp : bytes) (osize opos : N) : dou
              o_ret := if hint <? z_inPos z1 then MErr (Eimpossible 7) else MOk (hint - z_inPos z1) |}
   end.
 
+Definition dstep := dstep_gen false.          (* the current code *)
+Definition dstep_pre81dbe9b := dstep_gen true.
+
 (* ---------- a whole history: calls (input offered, output capacity) over the stream [src] ---------- *)
 Record dcall := { dc_in : N; dc_cap : N }.
 (* buffered mode: every call gets a fresh output buffer {size = cap, pos = 0} *)
@@ -706,3 +712,18 @@ Fixpoint crun (fuel : nat) (P : dparams) (c : cstate) (src : bytes) (acc : list 
   end.
 
 End Decoder.
+
+Arguments c_stage {H} c. Arguments c_expected {H} c. Arguments c_btype {H} c. Arguments c_rleSize {H} c. Arguments c_fp {H} c.
+Arguments c_validate {H} c. Arguments c_decoded {H} c. Arguments c_fout {H} c. Arguments c_raw {H} c. Arguments c_h {H} c.
+Arguments c_hdr {H} c. Arguments c_hdrSize {H} c.
+Arguments z_stage {H} z. Arguments z_lh {H} z. Arguments z_inbuf {H} z. Arguments z_inPos {H} z. Arguments z_inBuffSize {H} z.
+Arguments z_outBuffSize {H} z. Arguments z_outStart {H} z. Arguments z_outEnd {H} z. Arguments z_pending {H} z.
+Arguments z_hostage {H} z. Arguments z_noProgress {H} z. Arguments z_oversized {H} z. Arguments z_expect {H} z. Arguments z_c {H} z.
+Arguments l_z {H} l. Arguments l_in {H} l. Arguments l_ip {H} l. Arguments l_out {H} l. Arguments l_ocap {H} l.
+Arguments ICont {H} l. Arguments IStop {H} l. Arguments IEarly {H} z hint. Arguments IErr {H} e.
+Arguments o_z {H} d. Arguments o_consumed {H} d. Arguments o_out {H} d. Arguments o_ret {H} d.
+Arguments c_goto {H}. Arguments c_set_hdr {H}. Arguments c_set_fp {H}. Arguments c_set_block {H}. Arguments c_after_block {H}.
+Arguments frame_out {H}. Arguments is_block_stage {H}. Arguments is_skip {H}. Arguments next_with_input {H}. Arguments next_is_block {H}.
+Arguments z_upd {H}. Arguments z_set_stage {H}. Arguments z_set_lh {H}. Arguments z_set_in {H}. Arguments z_set_out {H}.
+Arguments z_set_bufs {H}. Arguments z_set_tail {H}. Arguments z_reset {H}. Arguments l_mk {H}. Arguments l_setz {H}. Arguments l_adv {H}.
+Arguments l_emit {H}. Arguments iter_flush {H}.
